@@ -375,7 +375,7 @@ def run(chk, tier, scale=1.0):
     san = [subprocess.run(["gcc", "-print-file-name=" + n], stdout=subprocess.PIPE, text=True).stdout.strip() for n in ("libasan.so", "libubsan.so")]
     preload = " ".join(san + [shim])
 
-    bplain = buildmod.build_daemon(buildmod.fresh_dir("c08p-" + tier), "plain")
+    bplain = buildmod.build_daemon(buildmod.fresh_dir("c08p-" + tier), "plain", site=True)
 
     def add(kind, n, reps):
         for i in range(n):
@@ -423,6 +423,16 @@ def run(chk, tier, scale=1.0):
             chk.violation(Violation("C08", "hang", "hang:blocked-in-read", "after a burst of %d lines (a whole number of 4096-byte reads) with the input left open the daemon sleeps inside read(2) "
                                     "on its input, nothing left to read, for two seconds on end; lines it has taken are unanswered: %s" % (
                                         r["stats"]["burst_lines"], [v[3][:300] for v in r["viol"]][:1]), dict(wit[0], burst=True)))
+    # the module interface no shipped module uses (fixture module site_api), on the unsanitized build under valgrind memcheck
+    import sitemodel
+    for r in vcommon.pmap(sitemodel.site_worker, [dict(build=bplain, seed=chk.seed * 1201 + k, n=[60, 120][k % 2], wrapper=VALGRIND) for k in range(int((4 if q else 48) * scale) or 1)]):
+        chk.add_case(r["hash"], True)
+        chk.count("runs_site_api_under_memcheck")
+        for w in r["inconc"]:
+            chk.inconc(w)
+        for (cls, rule, sig, text, wit) in r["viol"]:
+            if cls == "crash":
+                chk.violation(Violation("C08", "crash", sig, text, dict(wit, memcheck_site=True)))
     seen_crash = {}
     sampled = set()
     for kind, packed in res:
@@ -493,6 +503,15 @@ def run(chk, tier, scale=1.0):
 def replay(chk, rep):
     b = prun.build_daemon("c08-replay")
     w = rep["witness"]
+    if w.get("memcheck_site"):
+        import build as buildmod
+        import sitemodel
+        bp = buildmod.build_daemon(buildmod.fresh_dir("c08p-replay"), "plain", site=True)
+        r = sitemodel.site_worker(dict(build=bp, seed=w["seed"], n=w["n"], wrapper=VALGRIND))
+        hit = [v for v in r["viol"] if v[0] == "crash"]
+        for v in hit:
+            print(v[3])
+        return 1 if hit else 0
     if w.get("burst"):
         from checks import pcommon
         r = pcommon.burst_worker(dict(build=b, seed=w["seed"], n=w["n"], service=w.get("service"), after=w.get("after"), sock=w.get("sock"), pad4096=w.get("pad4096")))
